@@ -25,7 +25,7 @@ fn gen_case(r: &mut Rng, tier: &str, idx: usize) -> (String, Vec<i64>, f64, usiz
         let n = ws.len();
         return ("exhaustive_small".to_string(), ws, 0.0, n);
     }
-    let fam = r.below(15);
+    let fam = r.below(16);
     let mut forced_tol: Option<f64> = None;
     let (name, ws): (&str, Vec<i64>) = match fam {
         0 | 9 | 10 | 11 => {
@@ -70,6 +70,28 @@ fn gen_case(r: &mut Rng, tier: &str, idx: usize) -> (String, Vec<i64>, f64, usiz
             }
             forced_tol = Some(*r.pick(&[0.0, 0.5, 0.9, 0.99, 1.0]));
             ("near_i64_max", ws)
+        }
+        15 => {
+            // binary64 boundary of `T::from_f64(sum as f64 * tolerance)`: the only achievable
+            // difference is 2^k + e against a bound of 2^k (tolerance 1/2), k in 53..60
+            let k = r.range(53, 61) as u32;
+            let e = r.range(0, 3);
+            let a = (1i64 << k) + (1i64 << (k - 1)) + e;
+            let mut b = 1i64 << (k - 1);
+            let mut ws = vec![a];
+            // optionally split the small side into several weights (the best difference stays a - sum(b))
+            for _ in 0..r.below(4) {
+                let x = r.range(1, (b / 2).max(2));
+                ws.push(x);
+                b -= x;
+            }
+            ws.push(b);
+            for i in (1..ws.len()).rev() {
+                let j = r.below(i as u64 + 1) as usize;
+                ws.swap(i, j);
+            }
+            forced_tol = Some(*r.pick(&[0.5, 0.5, 0.5, 0.49999999999999994, 0.5000000000000001]));
+            ("f64_boundary", ws)
         }
         1 => {
             let n = r.range(2, if big { 13 } else { 11 }) as usize;
